@@ -21,7 +21,7 @@ func init() {
 	Registry["C13"] = Spec{
 		Fn:          c13,
 		Level:       "fault_enumeration",
-		Rule:        "configurations: client revision x server revision over every feature-threshold neighbour (all pairs in thorough, a covering sample in quick) x credentials/database/quota-key strings (empty, long, non-UTF8) x Connect and Dial. Answers: hello; hello delayed by 1..5 read-deadline expiries (far below the handshake timeout), also arriving in pieces with pauses longer than the read timeout inside it; exception chain; every other server packet kind; garbage; the hello cut after every byte (then EOF or reset); immediate EOF; silence until a short handshake timeout. Oracle: after success the follow-up query is parsed by the reference codec at min(c,s), a Progress packet encoded at min(c,s) is decoded exactly, ServerInfo() equals the hello (fields gated by the client's revision), the addendum is present iff min(c,s) >= 54458 and has reached the server when Connect/Dial returns (before any later request), hello fields are as configured; after failure: non-nil error (carrying the exception), nil client, a dialed connection closed, no library goroutine left. Non-trivial = c != s or a failing answer; distinct = (c, s, answer kind)",
+		Rule:        "configurations: client revision x server revision over every feature-threshold neighbour (all pairs in thorough, a covering sample in quick) x credentials/database/quota-key strings (empty, long, non-UTF8) x Connect and Dial. Answers: hello; hello delayed by 1..5 read-deadline expiries (far below the handshake timeout), also arriving in pieces with pauses longer than the read timeout inside it; exception chain; every other server packet kind; garbage; the hello cut after every byte (then EOF or reset); immediate EOF; silence until a short handshake timeout. x compression {off, LZ4, ZSTD, None}. Oracle: after success the follow-up query and a follow-up INSERT of a two-column block are parsed by the reference codec at min(c,s), a Progress packet encoded at min(c,s) is decoded exactly, ServerInfo() equals the hello (fields gated by the client's revision), the addendum is present iff min(c,s) >= 54458 and has reached the server when Connect/Dial returns (before any later request), hello fields are as configured; after failure: non-nil error (carrying the exception), nil client, a dialed connection closed, no library goroutine left. Non-trivial = c != s or a failing answer; distinct = (c, s, answer kind)",
 		Assumptions: []string{"handshake timeouts are real but short (150 ms) and only the returned error / closed state is judged, never elapsed time"},
 		MinDistinct: 200,
 	}
@@ -136,10 +136,21 @@ func c13Success(r *core.Run, ci int64, rng *rand.Rand, crev, srev int, dial bool
 		}
 	}
 	prog := ref.Progress{Rows: 1 + c17U64(rng)%1000, Bytes: c17U64(rng) % 100000, TotalRows: 7, WroteRows: 11, WroteBytes: 13, ElapsedNs: 17}
-	script.OnQuery = func(*ref.Query) []simnet.Item {
+	// compression on in half of the cases: data blocks take another encoder path, which must
+	// follow the negotiated revision just the same
+	if ci%2 == 1 {
+		opt.Compression = []ch.Compression{ch.CompressionLZ4, ch.CompressionZSTD, ch.CompressionNone}[int(ci/2)%3]
+	}
+	script.OnQuery = func(rq *ref.Query) []simnet.Item {
+		if strings.HasPrefix(rq.Body, "INSERT") {
+			hdr := &ref.Block{Cols: []ref.Col{{Name: "n", Type: "UInt64"}, {Name: "s", Type: "String"}}}
+			return []simnet.Item{{Data: simnet.PacketData(neg, ref.ServerDataCode, hdr, rq.Compression == 1, ref.MethodLZ4)}}
+		}
 		return []simnet.Item{{Data: simnet.PacketProgress(neg, prog)}, {Data: simnet.PacketEnd()}}
 	}
-	desc := map[string]any{"client_rev": crev, "server_rev": srev, "dial": dial, "delay_timeouts": delay}
+	script.OnDataEnd = func() []simnet.Item { return []simnet.Item{{Data: simnet.PacketEnd()}} }
+	sim.Srv.InputExpected = func(rq *ref.Query) bool { return strings.HasPrefix(rq.Body, "INSERT") }
+	desc := map[string]any{"client_rev": crev, "server_rev": srev, "dial": dial, "delay_timeouts": delay, "compression": opt.Compression.String()}
 	r.CaseLog(fmt.Sprintf("%d success %v", ci, desc))
 	r.Eval()
 	if crev != srev {
@@ -154,7 +165,7 @@ func c13Success(r *core.Run, ci int64, rng *rand.Rand, crev, srev int, dial bool
 	var client *ch.Client
 	var err error
 	var gotProg *proto.Progress
-	var derr, perr error
+	var derr, perr, ierr error
 	var atReturn []string
 	ok := runWithWatchdog(40*time.Second, func() {
 		if dial {
@@ -175,6 +186,15 @@ func c13Success(r *core.Run, ci int64, rng *rand.Rand, crev, srev int, dial bool
 			gotProg = &p
 			return nil
 		}})
+		if derr == nil {
+			// a block with columns in the other direction, at the same revision
+			cn, cs := new(proto.ColUInt64), new(proto.ColStr)
+			for i := 0; i < 3; i++ {
+				cn.Append(uint64(i) * 7)
+				cs.Append(fmt.Sprintf("row %d", i))
+			}
+			ierr = client.Do(ctx, ch.Query{Body: "INSERT INTO t VALUES", Input: proto.Input{{Name: "n", Data: cn}, {Name: "s", Data: cs}}})
+		}
 	})
 	if !ok {
 		r.Inconclusive(fmt.Sprintf("case %d did not return", ci))
@@ -193,8 +213,8 @@ func c13Success(r *core.Run, ci int64, rng *rand.Rand, crev, srev int, dial bool
 		fail("client-stream-not-at-negotiated-revision", fmt.Sprintf("the reference parser at revision %d rejects the client stream: %v", neg, sim.Srv.Err))
 		return
 	}
-	if perr != nil || derr != nil {
-		fail("followup-failed", fmt.Sprintf("Ping=%v Do=%v", perr, derr))
+	if perr != nil || derr != nil || ierr != nil {
+		fail("followup-failed", fmt.Sprintf("Ping=%v Do=%v insert=%v", perr, derr, ierr))
 		return
 	}
 	// server identity as sent, gated by the client's own revision
